@@ -162,6 +162,34 @@ func thesaurusQueries(c *ctx, seg segment.Segment, spec sx.V) (bad string) {
 				c.Count("thesaurus_range_listings")
 			}
 		}
+		// two listings of the same Thesaurus object read alternately, a third one opened in between
+		if nt := len(t.L[1].L); nt >= 2 {
+			var all []string
+			for _, te := range t.L[1].L {
+				all = append(all, string(te.L[0].B))
+			}
+			i1, i2 := th.AutomatonIterator(nil, nil, nil), th.AutomatonIterator(nil, nil, nil)
+			for k := 0; k <= nt; k++ {
+				if k == 1 {
+					th.AutomatonIterator(nil, []byte(all[nt-1]), nil).Next()
+				}
+				e1, err1 := i1.Next()
+				e2, err2 := i2.Next()
+				if err1 != nil || err2 != nil {
+					return fmt.Sprintf("thesaurus %q: two listings read alternately: errors %v / %v", name, err1, err2)
+				}
+				if k == nt {
+					if e1 != nil || e2 != nil {
+						return fmt.Sprintf("thesaurus %q: two listings read alternately yield entries beyond the %d terms", name, nt)
+					}
+					break
+				}
+				if e1 == nil || e2 == nil || e1.Term != all[k] || e2.Term != all[k] {
+					return fmt.Sprintf("thesaurus %q with terms %q: two listings of one Thesaurus object read alternately (a third, ranged one opened after the first step): step %d yields %v and %v, want %q twice", name, all, k, e1, e2, all[k])
+				}
+			}
+			c.Count("interleaved_thesaurus_listings")
+		}
 		// unknown term
 		sl, err := th.SynonymsList([]byte("\x01no-such-term"), nil, nil)
 		if err != nil {
